@@ -53,6 +53,7 @@ type interpreter struct {
 	journal     []undo
 	journalOn   bool
 	quiet       bool
+	formatOpaque bool
 	mapOrderMode bool
 	mapOrderMax  int
 	permCnt      int
@@ -503,6 +504,11 @@ func callSSA(i *interpreter, caller *frame, callpos token.Pos, fn *ssa.Function,
 			return nil // skipped (e.g. package initializer not on the allow-list)
 		}
 		return ext(fr, args)
+	}
+	if i.formatOpaque && fn.Pkg != nil && fn.Pkg.Pkg.Path() == "strconv" {
+		if v, ok := opaqueFormat(fn, args); ok {
+			return v
+		}
 	}
 	if fn.Blocks == nil {
 		unsupported("no code for function: %s", fn.String())
